@@ -107,6 +107,9 @@ class FileReader(AbstractReader):
         debug.logger & debug.flagReader and debug.logger(
             '%slooking for MIB %s' % (self._recursive and 'recursively ' or '', mibname))
 
+        # the index may have changed since the previous request
+        self._indexLoaded = False
+
         for path in self.getSubdirs(self._path, self._recursive, self._ignoreErrors):
 
             for mibalias, mibfile in self.getMibVariants(mibname, **options):
